@@ -1616,11 +1616,20 @@ fn check_message(ctx: &Ctx, out: &mut Outcome, w: &mut World, run_seed: u64, k: 
             }
         }
         _ => {
-            let ok = match payload::parse(m) {
-                Some(id) => l.subs.get(id.idx as usize).map(|s| s.as_slice()) == Some(m),
-                None => l.subs.iter().any(|s| s == m),
+            // an unreliable message travels in datagrams that are generated once (never retransmitted) and netcode
+            // surfaces each generated datagram at most once (C04), so across the full stack the "at most as many times
+            // as the network delivered its packets" of C03 is "at most once" whatever the relay duplicates or replays
+            let (ok, again) = match payload::parse(m) {
+                Some(id) => {
+                    let i = id.idx as usize;
+                    let ok = l.subs.get(i).map(|s| s.as_slice()) == Some(m);
+                    (ok, ok && !l.obtained.insert(i))
+                }
+                None => (l.subs.iter().any(|s| s == m), false),
             };
-            if ok {
+            if again {
+                Some(("unreliable-duplicate", format!("unreliable submission #{} ({} bytes) obtained a second time although every datagram carrying it was generated once", payload::parse(m).map_or(0, |id| id.idx), m.len())))
+            } else if ok {
                 None
             } else {
                 Some(("unreliable-fabricated", format!("unreliable message of {} bytes matches no submission", m.len())))
